@@ -22,7 +22,7 @@ META = {
                   'rockit/single_shooting.py:add_constraints', 'rockit/direct_collocation.py:add_constraints',
                   'rockit/sampling_method.py:eval_at_control/_eval_at_control/eval_at_integrator/eval_at_integrator_root/add_constraints_before/after',
                   'rockit/direct_method.py:OptiWrapper.subject_to/transcribe_placeholders'],
-    'bounds': 'constraints: ==, <=, >=, two-sided; bodies over x,u,z,t,T,t0,p,v (global/per-interval/control+) with uninterpreted markers; '
+    'bounds': 'constraints: ==, <=, >=, two-sided, scalar and vector valued (with broadcast bounds); bodies over x,u,z,t,T,t0,p,v (global/per-interval/control+) with uninterpreted markers; '
               'at_t0/at_tf mixes; offsets -2..2; grids control/integrator/integrator_roots; include_first/include_last; quick N<=3, M<=2; thorough N<=4, M<=3',
     'outside': "grid='inf' (C15); refine/group_* options; scale != 1 (C14); multi-stage (C12); IEEE rounding",
     'assumptions': ['reals for floats; constants identified up to 1e-10', 'markers stand for arbitrary total functions',
@@ -46,6 +46,10 @@ def constraint_sets(spec, method):
     s1 = [Con('<=', x0, 3), Con('>=', x1, a), Con('==', at_t0(x0), 1), Con('==', at_tf(x1) * pc, a)]
     if u is not None:
         s1.append(Con('<=<=', -1, 1, mid=u * pc))
+    # vector-valued constraints (one NLP row per component), scalar bound broadcast
+    s1.append(Con('<=', [x0 + t, x1 * pc], [4, a + 6]))
+    s1.append(Con('>=', [x1, x0 - x1], -8, grid='integrator' if method != 'SS' else None))
+    s1.append(Con('==', [at_tf(x0), at_t0(x1) + at_tf(x1)], [a, 2]))
     sets.append(s1)
     s2 = [Con('<=', x0 * x0 + nl1(x1), t + T, include_first=False),
           Con('>=', x1 - t0, -2, include_last=False),
@@ -95,7 +99,7 @@ def instances(tier, seed):
     Hsym = [h for h in H if fam.horizon_symbolic(h)]
     grids = [fam.G_UNI, fam.G_GEO_LOC, fam.G_UNI_LT, 'fun', fam.G_FREE, fam.G_UNI_LT0]
     n = 0
-    reps = 1 if tier == 'quick' else 3
+    reps = 1 if tier == 'quick' else 6
     for rep in range(reps):
         for method, intg in (('MS', 'rk'), ('SS', 'rk'), ('DC', None), ('MS', 'expl_euler')):
             models = fam.ode_core()[:3] + (fam.dae_core() if method == 'DC' else [])
@@ -210,7 +214,7 @@ def run(item):
     r = result(inst, ch, {'violations': viol, 'twins_ok': twins_ok, 'twins_bad': twins_bad,
                           'shape': '%s|%s|%s' % (cfg.tag(), spec.t0[0] + '/' + spec.T[0], repr(spec.cons)),
                           'sample': {'cfg': cfg.tag(), 'horizon': [spec.t0[0], spec.T[0]],
-                                     'constraints': [(c.op, repr(c.lhs), repr(c.mid), repr(c.rhs), c.grid, c.include_first, c.include_last) for c in spec.cons],
+                                     'constraints': [(c.op, repr(c.lhs), repr(c.mid), repr(c.rhs), c.grid, c.include_first, c.include_last) for c in spec.cons][:8],
                                      'nlp_rows': inst.nlp.ng, 'reference_atoms': len(refa['z']), 'matched': len(pairs)}})
     if viol:
         r['status'] = 'violation'
